@@ -65,7 +65,7 @@ func init() {
 		[]string{"fault_process_crash_images", "fault_power_loss_images", "images_ok", "batches", "sync_batches", "rotations"},
 		"power loss loses a not-yet-synced tail of a file from the end only")
 	meta("C07", "fault_enumeration", crashTech+"two levels deep for Merge and adoption: every position of the recovery Open is crashed again, then a clean Open",
-		NontrivialRuleText["C07"], 300, 5000,
+		NontrivialRuleText["C07"], 500, 8000,
 		[]string{"fault_process_crash_images", "fault_second_crash_images", "images_ok", "merges", "reopen_after_recovery"},
 		"process crash only (the property says 'the process dies')")
 	meta("C11", "exploration", "deterministic simulation (fault-free, one client): the exported datafile API is driven on the simulated disk through both I/O back-ends in lock-step; record start offsets and end distances are aimed using file sizes observed at the disk seam; round-trip, positions, sizes, logical==physical and byte-identity of the back-ends are checked",
